@@ -576,3 +576,11 @@ fn(Simulation, "_run_loop", uses=LOOP_USES + [(Simulation, "_build_summary"), (E
              (slen(s.self._event_heap._heap) == 0) | (s.self._event_heap._primary_event_count <= 0)),
             ("run-is-marked-finished", lambda s: Not(s.self._is_running)),
             ("time-never-decreases", lambda s: Not(spec_lt(s.self._current_time, s.old(s.self)._current_time)))])
+
+# ---- bounded stand-in (labelled bounded, never counted as proved): container ALIASING is outside the engine (lists have
+# value semantics in the proofs): the heap must keep its own storage when it is handed a list
+PROPERTY.setdefault("bounded", []).append(
+    {"name": "scheduled-list-stays-the-callers",
+     "bound": "80 scenarios: lists of 1/2/3/6 events x heap empty or not x the caller then clears / appends to / reverses / "
+              "overwrites the list x daemon mix; exactly the scheduled events are delivered, once, in key order",
+     "fn": lambda seed, tier: run_native_script("triage/c01_schedule_list.py")})
